@@ -1,4 +1,5 @@
 mod absdoc;
+mod detx;
 mod docrun;
 mod fsx;
 mod keysx;
@@ -7,6 +8,7 @@ mod posx;
 mod project;
 mod render;
 mod router;
+mod squashx;
 mod urix;
 
 fn main() {
@@ -26,6 +28,8 @@ fn main() {
         "keys-replay" => keysx::cmd_replay(rest),
         "uri-replay" => urix::cmd_replay(rest),
         "pos-replay" => posx::cmd_replay(rest),
+        "squash-replay" => squashx::cmd_replay(rest),
+        "lib-dump" => detx::cmd_dump(rest),
         other => {
             eprintln!("unknown subcommand {}", other);
             2
